@@ -426,35 +426,42 @@ End Jax.
 Theorem jax_check_exact N xshape : jax_check_accepts N xshape = true <-> jax_valid_primal N xshape.
 Proof. unfold jax_check_accepts, jax_valid_primal. rewrite orb_true_iff, !leqb_eq. tauto. Qed.
 
-(* ---- (iv') identity of the PyTensor Ops.  pytensor's Op.__eq__/__hash__ use
-   the class and __props__ only, and _PyTensorOperatorNoGrad declares
-   __props__ = ("dims", "dimsd", "shape"): the wrapped operator is NOT part
-   of the identity.  The graph-merge pass replaces equal Ops applied to the
-   same variable by ONE node. ---- *)
+(* ---- (iv') identity of the PyTensor Ops (after fix d8aeac6).  pytensor's
+   Op.__eq__/__hash__ use the class and __props__, and _PyTensorOperatorNoGrad
+   declares __props__ = ("dims", "dimsd", "shape", "_LOp"); LinearOperator has
+   no __eq__, so _LOp is compared by object identity (pt_obj = the object's
+   id).  The graph-merge pass replaces equal Ops applied to the same variable
+   by ONE node. ---- *)
 Record pt_op (R : Type) := { pt_grad_support : bool;    (* class: PyTensorOperator / _PyTensorOperatorNoGrad *)
-  pt_dims : list nat; pt_dimsd : list nat; pt_mat : list (list R) }.
-Arguments pt_grad_support {R} _. Arguments pt_dims {R} _. Arguments pt_dimsd {R} _. Arguments pt_mat {R} _.
-Definition pt_eqb {R} (a b : pt_op R) : bool :=
+  pt_dims : list nat; pt_dimsd : list nat; pt_obj : nat; pt_mat : list (list R) }.
+Arguments pt_grad_support {R} _. Arguments pt_dims {R} _. Arguments pt_dimsd {R} _.
+Arguments pt_obj {R} _. Arguments pt_mat {R} _.
+Definition pt_props_eqb {R} (a b : pt_op R) : bool :=       (* class, dims, dimsd, shape *)
   Bool.eqb (pt_grad_support a) (pt_grad_support b) && leqb (pt_dims a) (pt_dims b) && leqb (pt_dimsd a) (pt_dimsd b)
   && leqb [prod (pt_dimsd a); prod (pt_dims a)] [prod (pt_dimsd b); prod (pt_dims b)].
+Definition pt_eqb {R} (a b : pt_op R) : bool := pt_props_eqb a b && Nat.eqb (pt_obj a) (pt_obj b).
 (* PyTensorOperator(LOp) and the gradient Op it builds, _PyTensorOperatorNoGrad(LOp.H) *)
-Definition pt_wrap {R} dims dimsd (A : list (list R)) : pt_op R :=
-  {| pt_grad_support := true; pt_dims := dims; pt_dimsd := dimsd; pt_mat := A |}.
-Definition pt_gradient_op {R} dims dimsd (AH : list (list R)) : pt_op R :=
-  {| pt_grad_support := false; pt_dims := dimsd; pt_dimsd := dims; pt_mat := AH |}.
+Definition pt_wrap {R} dims dimsd (id : nat) (A : list (list R)) : pt_op R :=
+  {| pt_grad_support := true; pt_dims := dims; pt_dimsd := dimsd; pt_obj := id; pt_mat := A |}.
+Definition pt_gradient_op {R} dims dimsd (idH : nat) (AH : list (list R)) : pt_op R :=
+  {| pt_grad_support := false; pt_dims := dimsd; pt_dimsd := dims; pt_obj := idH; pt_mat := AH |}.
 (* the forward Op and its own gradient Op are of different classes: never merged *)
-Theorem pt_forward_gradient_distinct {R} dims dimsd (A AH : list (list R)) :
-  pt_eqb (pt_wrap dims dimsd A) (pt_gradient_op dims dimsd AH) = false.
+Theorem pt_forward_gradient_distinct {R} dims dimsd id idH (A AH : list (list R)) :
+  pt_eqb (pt_wrap dims dimsd id A) (pt_gradient_op dims dimsd idH AH) = false.
 Proof. reflexivity. Qed.
-(* but two wrappers of DIFFERENT operators with the same dims/dimsd compare equal *)
-Theorem pt_wrap_eq_ignores_operator {R} dims dimsd (A B : list (list R)) :
-  pt_eqb (pt_wrap dims dimsd A) (pt_wrap dims dimsd B) = true.
-Proof. unfold pt_eqb, pt_wrap; cbn. rewrite !leqb_refl, !Nat.eqb_refl. reflexivity. Qed.
+(* wrappers of different operator objects are different Ops *)
+Theorem pt_different_operators_distinct {R} (a b : pt_op R) : pt_obj a <> pt_obj b -> pt_eqb a b = false.
+Proof. intros H. unfold pt_eqb. apply Nat.eqb_neq in H. rewrite H. apply andb_false_r. Qed.
+(* hence equal Ops compute the same map (heap: an object id determines the operator) *)
+Theorem pt_equal_ops_same_operator {R} (heap : nat -> list (list R)) (a b : pt_op R) :
+  pt_mat a = heap (pt_obj a) -> pt_mat b = heap (pt_obj b) -> pt_eqb a b = true -> pt_mat a = pt_mat b.
+Proof. intros Ha Hb H. unfold pt_eqb in H. apply andb_prop in H. destruct H as [_ H].
+  apply Nat.eqb_eq in H. congruence. Qed.
 
 (* ===================================================================== *)
 (* Legacy: the code BEFORE the fix commits (dfcf977 jax, 1310770 torch batch
-   ranks, 5b7f0c6 gradient shape).  Kept as documentation of the four
-   repaired defects; nothing here describes the current code and Props/C19.v
+   ranks, 5b7f0c6 gradient shape, d8aeac6 pytensor __props__).  Kept as
+   documentation of the five repaired defects; nothing here describes the current code and Props/C19.v
    does not use it. *)
 Module Legacy.
 Section L.
@@ -516,4 +523,9 @@ Definition jax_check_accepts (M N : nat) (xshape : list nat) : bool :=
 Theorem jax_check_rejects_rectangular M N xshape : M <> N -> jax_valid_primal N xshape -> jax_check_accepts M N xshape = false.
 Proof. intros H [-> | ->]; unfold jax_check_accepts; cbn [leqb];
   replace (Nat.eqb N M) with false by (symmetry; apply Nat.eqb_neq; auto); reflexivity. Qed.
+(* before d8aeac6: __props__ = ("dims","dimsd","shape") - the wrapped operator was not
+   part of the identity, so wrappers of two different same-shaped operators were equal *)
+Theorem pt_wrap_eq_ignores_operator {R} dims dimsd idA idB (A B : list (list R)) :
+  pt_props_eqb (pt_wrap dims dimsd idA A) (pt_wrap dims dimsd idB B) = true.
+Proof. unfold pt_props_eqb, pt_wrap; cbn. rewrite !leqb_refl, !Nat.eqb_refl. reflexivity. Qed.
 End Legacy.
